@@ -317,5 +317,19 @@ CHECKS["C09"] = dict(
           dict(name="cluster-hostile", test="^(TestProbes|TestClusterHostile)$", quick=dict(n=300, procs=3, timeout=600), thorough=dict(n=15000, procs=6, timeout=3000))],
 )
 
+CHECKS["C10"] = dict(
+    level="exploration",
+    technique="randomised concurrent stress with a strong stream oracle: numbered, self-describing payloads from concurrent publishers; every subscriber's byte stream "
+              "is parsed end to end by paho's decoder and checked for framing, payload integrity, and exact per-publisher sequence",
+    level_text="Rounds of 2-6 concurrent publishers x 300-1200 messages (QoS 0/1, sizes 8 B..40 KiB) to 1-3 stable subscribers plus 0-2 churning subscribers, "
+               "behind the real write-queueing listener connection at flush rates 1 / 60 / 1000 (direct, queued, flush-on-write and timer-flush paths) or a real "
+               "gorilla WebSocket through the broker's HTTP handler, with fast and slow (sipping, pausing) readers. Stable subscribers must receive exactly "
+               "0..n-1 per publisher in order; churning subscribers only increasing sequences; every packet well-formed with an intact payload.",
+    level_note="Weakest claim of the set: interleavings are whatever the Go scheduler yields (sampled, not enumerated, not shrinkable). Trusted: paho decoder, net.Pipe / "
+               "loopback sockets. A stable subscriber not completing within 60 s of the publishers finishing is reported as loss.",
+    rule="one round = one evaluation; non-trivial = >=2 concurrent publishers; distinct = distinct round parameters (seed included).",
+    legs=[dict(name="stress", test="^TestConcurrentDelivery$", kind="plain", quick=dict(n=24, procs=4, timeout=600), thorough=dict(n=1200, procs=12, timeout=3000))],
+)
+
 for _k in CHECKS:
     NOT_APPLICABLE.pop(_k, None)
